@@ -35,7 +35,15 @@ RULE = (
     "checked against the model, and SHA-256 of stream bytes, JSON bytes, logical SQLite dump, logical Avro content, and "
     "the results of ==, <, <=, hash equality, sort order, record equality and selector matches must equal the baseline "
     "environment's; only str()/repr() may differ.  A case is non-trivial when at least one timestamp was stored and "
-    "read back; distinct = distinct (kind, format, TZ / environment set, sub-seed)."
+    "read back; distinct = distinct (kind, format, TZ / environment set, sub-seed).  Round-5 additions: ISO text is also "
+    "generated in the basic spellings (YYYYMMDD, YYYYMMDDTHHMMSS[.f][Z|+hhmm[ss]]), date only, ISO week dates "
+    "(YYYY-Www-D / YYYYWwwD) and as all-digit text of other lengths (reference there = this Python's "
+    "datetime.fromisoformat: when it refuses the text only awareness of an accepted value is demanded); plain JSON "
+    "(jsonfile://...?descriptors=false, sampled rdump -J / -j) with years 1..999 and 9999 in fields and _generated: the "
+    "timestamp TEXT must parse with the stdlib to the written wall clock and offset; records whose timestamp sits next to "
+    "a value an adapter refuses or treats specially (varint beyond 64 bit, surrogate escape, NUL, NaN, inf), each written "
+    "on its own: write() raised => the record is absent and later ones are unaffected, write() returned => exact "
+    "timestamp; the same inside every environment worker, where the set of refused records must equal the baseline's."
 )
 ASSUMPTIONS = [
     "sub-second UTC offsets are outside the generated class (offsets are whole seconds, |offset| < 24 h)",
@@ -47,6 +55,7 @@ ASSUMPTIONS = [
     "IANA zone rules come from the stdlib zoneinfo module and the system zone database (the expected offset of a zone-"
     "aware input is utcoffset() of the original stdlib object)",
     "str()/repr() output is recorded but never judged",
+    "ordinal dates (YYYY-DDD) and other texts this Python's fromisoformat refuses are outside the ISO input class",
     "the `_generated` metadata field is never given a falsy epoch number (0, 0.0, -0.0): the record constructor documents "
     "a falsy `_generated` argument as 'not given' and stores the current time; ordinary timestamp fields do get epoch 0",
 ]
@@ -105,6 +114,22 @@ def generate(ctx):
             for tz in PROC_TZ:
                 if ctx.mine(idx):
                     yield {"k": "ts", "fmt": fmt, "tz": tz, "s": subseed("c13", ctx.seed, "ts", fmt, tz, rep)}
+                idx += 1
+    # plain JSON (descriptors=false, also rdump -J / -j): the timestamp TEXT must parse back to what was written
+    idx = 0
+    for rep in range(ctx.scale(24, 300)):
+        for tz in PROC_TZ:
+            if ctx.mine(idx + 1):
+                yield {"k": "plain", "tz": tz, "rdump": (None, "-J", None, "-j", None, None)[(idx // 3) % 6] if idx % 2 == 0 else None,
+                       "s": subseed("c13", ctx.seed, "plain", tz, rep)}
+            idx += 1
+    # timestamps next to values an adapter refuses or treats specially (integers beyond 64 bit, surrogate escapes, NaN)
+    idx = 0
+    for rep in range(ctx.scale(12, 150)):
+        for fmt in FORMATS:
+            for tz in PROC_TZ:
+                if ctx.mine(idx + 2):
+                    yield {"k": "mixed", "fmt": fmt, "tz": tz, "s": subseed("c13", ctx.seed, "mixed", fmt, tz, rep)}
                 idx += 1
     # environment groups: every part re-runs the baseline environment (index 0) and compares the others against it
     groups = ctx.scale(4, 20)
@@ -179,6 +204,10 @@ def _ft():
 def execute(ctx, case):
     if case["k"] == "env":
         return execute_env(ctx, case)
+    if case["k"] == "plain":
+        return execute_plain(ctx, case)
+    if case["k"] == "mixed":
+        return execute_mixed(ctx, case)
     from flow.record import RecordDescriptor, RecordReader, RecordWriter
 
     ft = _ft()
@@ -191,6 +220,16 @@ def execute(ctx, case):
     L = RecordDescriptor("verif/c13list", [("datetime[]", "tl"), ("varint", "i")])
     ctx.ev()
 
+    for usp in model.make_undefined_texts(rng, 2):
+        # all-digit text this Python's ISO parser refuses: nothing is demanded of the value, but an accepted one is aware
+        try:
+            v = ft.datetime(model.build(usp, ft))
+        except Exception:  # noqa: BLE001
+            ctx.event("non_iso_digit_text_refused")
+        else:
+            ctx.event("non_iso_digit_text_accepted")
+            if v.utcoffset() is None:
+                ctx.violation(None, "a timestamp built from text is naive", detail={"spec": usp})
     rows = []  # (i, spec, record, ref observation of ts, gspec or None, ref observation of _generated)
     for i, sp in enumerate(specs):
         kw = {"ts": model.build(sp, ft), "i": i}
@@ -321,6 +360,263 @@ def execute(ctx, case):
     ctx.sample({"case": case, "inputs": [_render(sp) for sp in specs[:4]], "stored": [row[3] for row in store[:4]]}, kind="ts:" + fmt)
 
 
+# ---- plain JSON: descriptors=false, rdump -J / -j -------------------------------------------------------------
+def _text_obs(text):
+    """Observation of ISO text parsed by the stdlib (the 'any other consumer' of plain JSON); None when it does not parse."""
+    try:
+        v = _dt.datetime.fromisoformat(text)
+    except (ValueError, TypeError):
+        return None
+    return model.observe_dt(v)
+
+
+def check_plain_docs(ctx, docs, rows, where):
+    """docs = parsed JSON objects of the record lines; rows = [(i, spec, ref, gspec, gref)]."""
+    byi = {d.get("i"): d for d in docs if isinstance(d, dict)}
+    if len(docs) != len(rows):
+        ctx.violation(None, "%s: %d records written, %d JSON documents" % (where, len(rows), len(docs)), detail={})
+        return
+    for i, sp, ref, gsp, gref in rows:
+        d = byi.get(i)
+        if d is None:
+            ctx.violation(None, "%s: row missing in the plain JSON output" % where, detail={"i": i, "spec": sp})
+            continue
+        for key, r, s_ in (("ts", ref, sp), ("_generated", gref, gsp)):
+            if r is None:
+                continue
+            ctx.event("plain_json_timestamp_texts_checked")
+            got = _text_obs(d.get(key))
+            if got is None:
+                ctx.violation(None, "%s: the timestamp text in plain JSON is not ISO 8601 text a standard parser reads" % where,
+                              detail={"key": key, "text": d.get(key), "written": r, "spec": s_})
+            elif got != r:
+                ctx.violation(None, "%s: the timestamp text in plain JSON parses to another wall clock / UTC offset" % where,
+                              detail={"key": key, "text": d.get(key), "parsed": got, "written": r, "spec": s_})
+
+
+def split_json(text):
+    dec = json.JSONDecoder()
+    docs, pos = [], 0
+    while True:
+        while pos < len(text) and text[pos] in " \t\r\n":
+            pos += 1
+        if pos >= len(text):
+            return docs
+        val, pos = dec.raw_decode(text, pos)
+        docs.append(val)
+
+
+def execute_plain(ctx, case):
+    from flow.record import RecordDescriptor, RecordReader, RecordWriter
+
+    ft = _ft()
+    _set_tz(case["tz"])
+    rng = random.Random(case["s"])
+    specs = model.make_specs(rng, K)
+    gspecs = model.make_specs(rng, K)
+    # plain JSON is read by other tools: years below 1000 and 9999 are where fixed-width year formatting matters
+    for sp in specs[:4] + gspecs[:4]:
+        if "c" in sp and sp["form"] in ("obj", "ftobj") and (sp["tz"] is None or sp["tz"][0] != "zone"):
+            sp["c"][0] = rng.choice([1, 2, 9, 10, 99, 100, 999, 9999])
+            if sp["tz"] and sp["tz"][0] == "fixed" and sp["c"][0] in (1, 9999):
+                sp["c"][1:3] = [6, 15]
+    T = RecordDescriptor("verif/c13plain", [("datetime", "ts"), ("varint", "i")])
+    ctx.ev()
+    rows, recs = [], []
+    for i, sp in enumerate(specs):
+        gsp = gspecs[i]
+        if gsp["form"].startswith("epoch") and not model.build(gsp, ft):
+            gsp = {"form": "epoch_int", "n": 1}
+        try:
+            r = T(ts=model.build(sp, ft), i=i, _generated=model.build(gsp, ft))
+        except Exception as e:  # noqa: BLE001
+            ctx.violation(None, "constructing a record from a valid timestamp input raised %s" % type(e).__name__,
+                          detail={"spec": sp, "generated_spec": gsp, "exception": repr(e)[:300]})
+            continue
+        ref = check_field_obs(ctx, sp, model.observe_dt(r.ts), "field")
+        gref = check_field_obs(ctx, gsp, None if r._generated is None else model.observe_dt(r._generated), "_generated")
+        if ref is None or gref is None:
+            continue
+        rows.append((i, sp, ref, gsp, gref))
+        recs.append(r)
+        ctx.cell("jsonplain", sp["form"], "year<1000" if ref[0] < 1000 else "year=9999" if ref[0] == 9999 else "other")
+    if not rows:
+        return
+    path = os.path.join(ctx.state["tmp"], "p%d.json" % ctx.evaluations)
+    spath = path + ".records"
+    try:
+        try:
+            w = RecordWriter("jsonfile://" + path + "?descriptors=false")
+            for r in recs:
+                w.write(r)
+            w.flush()
+            w.close()
+        except Exception as e:  # noqa: BLE001
+            ctx.violation(None, "writing valid timestamps as plain JSON raised %s" % type(e).__name__, detail={"exception": repr(e)[:300]})
+            return
+        with open(path, encoding="utf-8") as f:
+            text = f.read()
+        try:
+            docs = split_json(text)
+        except ValueError as e:
+            ctx.violation(None, "plain JSON output does not parse", detail={"error": str(e)[:200]})
+            return
+        check_plain_docs(ctx, docs, rows, "jsonfile descriptors=false")
+        ctx.event("stored:jsonplain", len(rows))
+        # the library's own reader: _generated is rebuilt as a timestamp, ts comes back as text
+        try:
+            rd = RecordReader(path)
+            got = list(rd)
+            rd.close()
+        except Exception as e:  # noqa: BLE001
+            ctx.violation(None, "reading plain JSON with timestamps raised %s" % type(e).__name__,
+                          detail={"exception": repr(e)[:300], "first_lines": text[:300]})
+            got = None
+        if got is not None:
+            if len(got) != len(rows):
+                ctx.violation(None, "plain JSON: %d records written, %d read back" % (len(rows), len(got)), detail={})
+            else:
+                for (i, sp, ref, gsp, gref), o in zip(rows, got):
+                    ctx.event("stored_values_checked")
+                    check_read_obs(ctx, "json", gref, None if o._generated is None else model.observe_dt(o._generated), "_generated (plain JSON)", gsp)
+                    tv = getattr(o, "ts", None)
+                    if isinstance(tv, _dt.datetime):
+                        check_read_obs(ctx, "json", ref, model.observe_dt(tv), "ts (plain JSON)", sp)
+                    else:
+                        got_obs = _text_obs(None if tv is None else str(tv))
+                        if got_obs != ref:
+                            ctx.violation(None, "ts (plain JSON): the text read back does not parse to the written wall clock / offset",
+                                          detail={"text": None if tv is None else str(tv), "written": ref, "spec": sp})
+        if case.get("rdump"):
+            sw = RecordWriter(spath)
+            for r in recs:
+                sw.write(r)
+            sw.flush()
+            sw.close()
+            repo = os.environ.get("VERIF_REPO", "/repo")
+            code = ("import sys, os\nrepo = %r\n"
+                    "if os.path.realpath(repo) != '/repo' or os.environ.get('VERIF_FORCE_PATH'):\n    sys.path.insert(0, repo)\n"
+                    "from flow.record.tools.rdump import main\nsys.exit(main(sys.argv[1:]) or 0)\n") % repo
+            try:
+                p = subprocess.run([sys.executable, "-W", "ignore", "-c", code, spath, case["rdump"]], capture_output=True, text=True, timeout=WORKER_TIMEOUT_S)
+            except subprocess.TimeoutExpired:
+                ctx.require(False, "rdump subprocess exceeded its watchdog")
+                p = None
+            if p is not None:
+                ctx.event("rdump_runs:" + case["rdump"])
+                if p.returncode != 0:
+                    ctx.violation(None, "rdump %s on a valid stream failed" % case["rdump"], detail={"stderr": p.stderr[-1500:]})
+                else:
+                    try:
+                        check_plain_docs(ctx, split_json(p.stdout), rows, "rdump " + case["rdump"])
+                    except ValueError as e:
+                        ctx.violation(None, "rdump %s output does not parse as JSON documents" % case["rdump"], detail={"error": str(e)[:200]})
+    finally:
+        for pth in (path, spath):
+            try:
+                os.unlink(pth)
+            except OSError:
+                pass
+    ctx.nontrivial("plain", case["tz"], case["s"])
+    ctx.sample({"case": case, "first_line": text[:200]}, kind="plain")
+
+
+# ---- timestamps next to values an adapter refuses or treats specially ------------------------------------------
+COMPANIONS = [("big", 2**63), ("big", -(2**63) - 1), ("big", 2**64), ("big", 10**40), ("big", 2**63 - 1), ("big", -(2**63)),
+              ("s", "lone\udcffescape"), ("s", "nul\x00inside"), ("f", float("nan")), ("f", float("inf")), ("f", -0.0), ("big", None)]
+
+
+def execute_mixed(ctx, case):
+    """Every record has a timestamp with a non-trivial offset AND one companion value; each record is written on its own:
+    either write() raises (then the record is not stored and the later ones are unaffected) or it returned and the
+    timestamp reads back exactly."""
+    from flow.record import RecordDescriptor, RecordReader, RecordWriter
+
+    ft = _ft()
+    fmt = case["fmt"]
+    _set_tz(case["tz"])
+    rng = random.Random(case["s"])
+    specs = model.make_specs(rng, len(COMPANIONS))
+    M = RecordDescriptor("verif/c13mixed", [("datetime", "ts"), ("varint", "i"), ("varint", "big"), ("string", "s"), ("float", "f")])
+    ctx.ev()
+    ext = {"stream": "records", "json": "json", "sqlite": "db", "avro": "avro"}[fmt]
+    path = os.path.join(ctx.state["tmp"], "m%d.%s" % (ctx.evaluations, ext))
+    uri = {"sqlite": "sqlite://", "avro": "avro://"}.get(fmt, "") + path
+    order = list(range(len(COMPANIONS)))
+    rng.shuffle(order)
+    stored = {}
+    try:
+        try:
+            w = RecordWriter(uri)
+        except Exception as e:  # noqa: BLE001
+            ctx.violation(None, "opening a %s writer raised %s" % (fmt, type(e).__name__), detail={})
+            return
+        try:
+            for i in order:
+                sp = specs[i]
+                key, val = COMPANIONS[i]
+                try:
+                    r = M(**{"ts": model.build(sp, ft), "i": i, key: val})
+                except Exception as e:  # noqa: BLE001
+                    ctx.violation(None, "constructing a record from valid values raised %s" % type(e).__name__, detail={"spec": sp, "companion": [key, repr(val)]})
+                    continue
+                ref = check_field_obs(ctx, sp, model.observe_dt(r.ts), "field")
+                if ref is None or (fmt == "avro" and not model.utc_representable(ref)):
+                    continue
+                gref = model.observe_dt(r._generated)
+                try:
+                    w.write(r)
+                except Exception as e:  # noqa: BLE001 - the adapter refuses the companion value
+                    ctx.event("mixed_records_refused:%s:%s" % (fmt, type(e).__name__))
+                    stored[i] = None
+                    continue
+                stored[i] = (sp, ref, gref, key)
+                ctx.event("mixed_records_accepted:" + fmt)
+            w.flush()
+        finally:
+            try:
+                w.close()
+            except Exception as e:  # noqa: BLE001
+                ctx.violation(None, "closing the %s writer after refused records raised %s" % (fmt, type(e).__name__), detail={"exception": repr(e)[:300]})
+        accepted = {i: v for i, v in stored.items() if v is not None}
+        if not accepted:
+            ctx.event("mixed_cases_without_accepted_records")
+            return
+        try:
+            rd = RecordReader(uri)
+            got = list(rd)
+            rd.close()
+        except Exception as e:  # noqa: BLE001
+            ctx.violation(None, "reading %s after refused records raised %s" % (fmt, type(e).__name__), detail={"exception": repr(e)[:300]})
+            return
+        seen = {}
+        for o in got:
+            seen.setdefault(None if o.i is None else int(o.i), []).append(o)
+        for i, v in stored.items():
+            if v is None:
+                if i in seen:
+                    ctx.violation(None, "%s: a record whose write() raised is in the output" % fmt, detail={"i": i, "companion": repr(COMPANIONS[i])})
+                continue
+            sp, ref, gref, key = v
+            if len(seen.get(i, [])) != 1:
+                ctx.violation(None, "%s: a record whose write() returned is read back %d times" % (fmt, len(seen.get(i, []))),
+                              detail={"i": i, "companion": repr(COMPANIONS[i])})
+                continue
+            o = seen[i][0]
+            ctx.event("stored_values_checked", 2)
+            ctx.event("mixed_timestamps_checked")
+            ctx.cell("mixed", fmt, key, repr(COMPANIONS[i][1])[:12])
+            check_read_obs(ctx, fmt, ref, None if o.ts is None else model.observe_dt(o.ts), "ts (next to a special %s value)" % key, sp)
+            check_read_obs(ctx, fmt, gref, None if o._generated is None else model.observe_dt(o._generated), "_generated (next to a special %s value)" % key)
+    finally:
+        try:
+            os.unlink(path)
+        except OSError:
+            pass
+    ctx.nontrivial("mixed", fmt, case["tz"], case["s"])
+    ctx.sample({"case": case, "stored": sorted(k for k, v in stored.items() if v), "refused": sorted(k for k, v in stored.items() if v is None)}, kind="mixed:" + fmt)
+
+
 # ---- part 2: one worker subprocess per display environment ----------------------------------------------
 def run_worker(ctx, case, envidx):
     flow_tz, tz = ENVS[envidx]
@@ -405,6 +701,38 @@ def check_worker(ctx, case, envidx, out, specs):
                     ctx.event("env_stored_list_elements_checked")
 
 
+def check_worker_mixed(ctx, envidx, out, specs, base):
+    """Records with a companion value an adapter refuses: refused => absent, accepted => exact timestamp; the set of
+    refused records must not depend on the environment."""
+    envname = "FLOW_RECORD_TZ=%s TZ=%s" % ENVS[envidx]
+    for fmt, res in sorted(out.get("mixed", {}).items()):
+        if res["error"] is not None:
+            ctx.violation(None, "worker: %s with refused records raised outside write()" % fmt, detail={"error": res["error"], "env": envname})
+            continue
+        refused = {i for i, _ in res["refused"]}
+        rows = {}
+        for i, o, og in res["rows"] or []:
+            rows.setdefault(i, []).append((o, og))
+        for i in refused:
+            if i in rows:
+                ctx.violation(None, "worker: %s holds a record whose write() raised" % fmt, detail={"i": i, "env": envname})
+        for i in res["accepted"]:
+            if len(rows.get(i, [])) != 1:
+                ctx.violation(None, "worker: %s: a record whose write() returned is read back %d times" % (fmt, len(rows.get(i, []))), detail={"i": i, "env": envname})
+                continue
+            exp = model.expected(specs[i])
+            o, og = rows[i][0]
+            ctx.event("env_mixed_timestamps_checked")
+            ref = exp[0] if (o is None or o[7] is None) else next((e for e in exp if (model.utc_us(e) == model.utc_us(o) if fmt == "avro" else e == o)), exp[0])
+            check_read_obs(ctx, fmt, ref, o, "ts next to a special value (worker)", specs[i], envname)
+            check_read_obs(ctx, fmt, [2024, 1, 2, 3, 4, 5, 678, 0], og, "_generated next to a special value (worker)", None, envname)
+        if base is not None and fmt in base.get("mixed", {}):
+            b = base["mixed"][fmt]
+            if sorted(i for i, _ in b["refused"]) != sorted(refused) or sorted(b["accepted"]) != sorted(res["accepted"]):
+                ctx.violation(None, "which records %s refuses depends on the display / process timezone setting" % fmt,
+                              detail={"env": envname, "baseline_refused": b["refused"], "env_refused": res["refused"]})
+
+
 def execute_env(ctx, case):
     ctx.ev()
     specs = model.make_specs(random.Random(case["s"]), case["n"])
@@ -416,6 +744,7 @@ def execute_env(ctx, case):
                 return
             continue
         check_worker(ctx, case, envidx, out, specs)
+        check_worker_mixed(ctx, envidx, out, specs, base)
         if envidx == 0:
             base = out
             ctx.event("baseline_workers")
@@ -466,3 +795,5 @@ def finish(ctx):
     if ctx.shard == 0:
         ctx.require(ctx.events.get("field_values_checked", 0) > 0, "no timestamp field value was checked")
         ctx.require(ctx.events.get("stored_values_checked", 0) > 0, "no stored timestamp was checked")
+    if ctx.events.get("stored:jsonplain", 0):
+        ctx.require(ctx.events.get("plain_json_timestamp_texts_checked", 0) > 0, "no plain-JSON timestamp text was parsed")
